@@ -333,7 +333,7 @@ pub fn c18_check(sc: &ChScenario) -> CaseResult {
     let mut max_depth_seen = 0usize;
     for c in &run.calls {
         let mut spans: Vec<(String, u64)> = vec![("caller".into(), c.trace.span_id)];
-        let mut expect: Option<(u128, bool)> = if sc.cfg.subscriber != 2 { Some((c.trace.trace_id, c.trace.sampled)) } else { None };
+        let mut expect: Option<(u128, bool)> = if sc.cfg.subscriber == 0 { Some((c.trace.trace_id, c.trace.sampled)) } else { None };
         for k in 0..depth {
             let Some(s) = v.sent.get(&(k, c.body)) else { break };
             max_depth_seen = max_depth_seen.max(k + 1);
@@ -385,8 +385,22 @@ pub fn c18_check(sc: &ChScenario) -> CaseResult {
             }
         }
     }
-    // concurrent requests never exchange trace contexts (without an OpenTelemetry layer: injective as supplied)
-    if sc.cfg.subscriber != 2 {
+    // every request a hop transmits has a span id of its own (a fresh span id per hop, in every subscriber mode)
+    {
+        let mut seen: BTreeMap<(usize, u64), u64> = BTreeMap::new();
+        for ((hop, body), s) in &v.sent {
+            if let Some(other) = seen.insert((*hop, s.trace.span_id), *body) {
+                if other != *body {
+                    return fail(&v, format!(
+                        "hop {hop}: requests {other} and {body} were transmitted with the same span id {:x} (each hop must get a fresh span id; concurrent requests must not share a trace context)",
+                        s.trace.span_id
+                    ));
+                }
+            }
+        }
+    }
+    // concurrent requests never exchange trace contexts (no subscriber: injective as supplied)
+    if sc.cfg.subscriber == 0 {
         let mut seen: BTreeMap<u128, u64> = BTreeMap::new();
         for ((hop, body), s) in &v.sent {
             if *hop == 0 {
